@@ -14,17 +14,14 @@ variable {V : Type}
 def expectedCall (env : Env V) (k : Nat) (c : Call V) (behav : Nat → Outcome V) :
     Verdict → List (Event V) × Option Pending
   | .builtin .ping => ([.sent (.ret c.serial c.sender none .empty)], none)
-  | .builtin .introspect => ([.sent (.ret c.serial c.sender (some ['s']) (.xml c.path))], none)
+  | .builtin .introspect => ([.sent (.ret c.serial c.sender (some introspectSig) (.xml c.path))], none)
   | .builtin .managed =>
     match env.managedErr c.path with
-    | none => ([.sent (.ret c.serial c.sender (some "a{oa{sa{sv}}}".toList) (.managed c.path))], none)
-    | some e => ([sendErr c managedFailed.1 (pyFormat managedFailed.2 [e.text])], none)
-  | .unknownObject => ([sendErr c unknownObject.1 (pyFormat unknownObject.2 [c.path])], none)
-  | .unknownMethod =>
-    ([sendErr c unknownMethod.1
-        (pyFormat unknownMethod.2 [c.member, orElse c.sig [], orElse c.iface "(null)".toList])], none)
-  | .invalidArgs m =>
-    ([sendErr c invalidArgs.1 (pyFormat invalidArgs.2 [c.member, orElse c.sig [], m.sigIn])], none)
+    | none => ([.sent (.ret c.serial c.sender (some managedSig) (.managed c.path))], none)
+    | some e => ([managedFailedErr c e], none)
+  | .unknownObject => ([unknownObjectErr c], none)
+  | .unknownMethod => ([unknownMethodErr c], none)
+  | .invalidArgs m => ([invalidArgsErr c m], none)
   | .unbound m => (if c.expectReply then sendError env (pendingOf k c m) notImplemented else [], none)
   | .run f m => afterExecute env (pendingOf k c m) c f (behav f.id)
 
